@@ -33,9 +33,10 @@ type vPub struct {
 // vStorage wraps the broker's storage: puts can be held back (a slow etcd) and released later, in order.
 type vStorage struct {
 	storage
-	mu      sync.Mutex
-	stalled bool
-	release chan struct{}
+	mu        sync.Mutex
+	stalled   bool
+	release   chan struct{}
+	watchGate chan struct{} // non-nil: delete-watch events are held back
 }
 
 func (s *vStorage) put(key, value string) error {
@@ -47,6 +48,58 @@ func (s *vStorage) put(key, value string) error {
 		<-ch
 	}
 	return s.storage.put(key, value)
+}
+
+// watchDelete forwards the storage's delete events; while holdWatch() is in force they are kept back (the watch of a
+// real etcd delivers them asynchronously) and handed over, in order, on releaseWatch().
+func (s *vStorage) watchDelete(prefix string) (<-chan map[string]*string, func(), error) {
+	in, cancel, err := s.storage.watchDelete(prefix)
+	if err != nil {
+		return in, cancel, err
+	}
+	out := make(chan map[string]*string)
+	done := make(chan struct{})
+	go func() {
+		for {
+			select {
+			case <-done:
+				return
+			case ev := <-in:
+				s.mu.Lock()
+				g := s.watchGate
+				s.mu.Unlock()
+				if g != nil {
+					select {
+					case <-g:
+					case <-done:
+						return
+					}
+				}
+				select {
+				case out <- ev:
+				case <-done:
+					return
+				}
+			}
+		}
+	}()
+	var once sync.Once
+	return out, func() { once.Do(func() { close(done) }); cancel() }, nil
+}
+
+func (s *vStorage) holdWatch() {
+	s.mu.Lock()
+	s.watchGate = make(chan struct{})
+	s.mu.Unlock()
+}
+
+func (s *vStorage) releaseWatch() {
+	s.mu.Lock()
+	if s.watchGate != nil {
+		close(s.watchGate)
+		s.watchGate = nil
+	}
+	s.mu.Unlock()
 }
 
 func (s *vStorage) stall() {
@@ -121,6 +174,7 @@ func vNewBroker(spec *Spec) *vBroker {
 
 func (vb *vBroker) close() {
 	vb.store.resume()
+	vb.store.releaseWatch()
 	vb.b.close()
 	vb.mutex.Lock()
 	conns := vb.conns
